@@ -58,6 +58,17 @@ def run_one(sid, meta, tier):
         sh(f'git -C /repo worktree remove --force {wt}')
 
 
+def merge_results(results):
+    """accumulate into the committed table seeded/RESULTS.json (by id)"""
+    rp = os.path.join(VERIF, 'seeded', 'RESULTS.json')
+    cur = {}
+    if os.path.exists(rp):
+        cur = {r['id']: r for r in json.load(open(rp))}
+    for r in results:
+        cur[r['id']] = {k: r.get(k) for k in ('id', 'property', 'caught', 'rc', 'how', 'wall_s', 'error')}
+    json.dump([cur[k] for k in sorted(cur)], open(rp, 'w'), indent=1)
+
+
 def main():
     ap = argparse.ArgumentParser()
     ap.add_argument('--tier', default='quick')
@@ -91,6 +102,7 @@ def main():
         sh(f'./check {p} --tier quick', cwd=VERIF)
     os.makedirs(os.path.join(VERIF, 'build'), exist_ok=True)
     json.dump(results, open(os.path.join(VERIF, 'build', 'seeded_results.json'), 'w'), indent=1)
+    merge_results(results)
     for r in sorted(results, key=lambda r: r['id']):
         print(f"{r['id']:14s} {r.get('property', '?'):4s} caught={r.get('caught')} rc={r.get('rc')} "
               f"{r.get('wall_s', '')}s  {r.get('how') or r.get('error') or ''}")
